@@ -237,3 +237,68 @@ def _run_parallel_callsites():
 
 
 R.lemma("run_parallel-callsites", "C09", _run_parallel_callsites)
+
+
+# ------------------------------------------------------------------ merge_tier_hits_across_shards_dict
+# A hit is a dict of which the function reads the keys "id", "score", "_score" only: modelled as a dict-like record
+# value over exactly those keys with symbolic presence (type invariant, stated here: ids are strings, scores are
+# floats).  Consequence: "the same hit" in the clauses below means equal on those three keys.
+SH = "clematis/engine/stages/t2/shard.py:"
+R.record("HitD", {"id": "str", "has_id": "bool", "score": "float", "has_score": "bool", "_score": "float",
+                  "has__score": "bool"}, dictlike=True)
+R.opaque(SH + "_qscore", "qscore_of", ["float"], "int")
+R.contract(SH + "_qscore", "C09", callee=False, types={"score": "float"}, returns="int",
+           ensures=[("an-int-for-every-float", "True")], raises="none",
+           # reals are never NaN and float(x) of a float cannot fail
+           unreachable_ok=["return 0"])
+
+SORTED_TIER = ("forall2(a, b, 0 <= a and a < b and b < len(%(o)s), otier[a] <= otier[b] and "
+               "implies(otier[a] == otier[b], hit_key(%(o)s[a]) <= hit_key(%(o)s[b])))")
+DISTINCT = "forall2(a, b, 0 <= a and a < b and b < len(%(o)s), hit_id(%(o)s[a]) != hit_id(%(o)s[b]))"
+R.contract(
+    SH + "merge_tier_hits_across_shards_dict", "C09",
+    types={"shard_hits_by_tier": "List[Dict[str, List[HitD]]]", "tiers": "List[str]", "k_retrieval": "int"},
+    returns="Tuple[List[HitD], List[str]]",
+    # ghost outputs: otier[j] = index in `tiers` of the tier that contributed result[0][j]; opos = its position in
+    # that tier's sorted cross-shard bucket
+    ghost={"otier": ("List[int]", "empty"), "opos": ("List[int]", "empty")},
+    asserts={
+        "call:out.append": ["ghost:otier.append(_t)", "ghost:opos.append(_i)"],
+        "call:bucket.sort": ["forall2(a, b, 0 <= a and a < b and b < len(bucket), hit_key(bucket[a]) <= hit_key(bucket[b]))"],
+    },
+    # with k_retrieval <= 0 the function returns the first hit anyway (the cap is only tested after an append)
+    requires=[("k-at-least-1", "k_retrieval >= 1")],
+    ensures=[
+        ("at-most-k", "len(result[0]) <= k_retrieval"),
+        ("ids-pairwise-distinct", DISTINCT % {"o": "result[0]"}),
+        ("tier-order-then-(-qscore,id)-order",
+         "len(otier) == len(result[0]) and forall(j, 0 <= j < len(otier), 0 <= otier[j] and otier[j] < len(result[1])) and " +
+         SORTED_TIER % {"o": "result[0]"}),
+        ("used-tiers-is-the-walked-prefix",
+         "len(result[1]) <= len(tiers) and forall(j, 0 <= j < len(result[1]), result[1][j] == tiers[j]) and "
+         "implies(len(result[0]) < k_retrieval, len(result[1]) == len(tiers))"),
+        ("inputs-untouched", "seq_eq(tiers, old(tiers)) and seq_eq(shard_hits_by_tier, old(shard_hits_by_tier))"),
+    ],
+    raises="none",
+    loops={
+        0: {"index": "_t", "inv": [          # for tier in tiers
+            "len(used_tiers) == _t and forall(j, 0 <= j < _t, used_tiers[j] == tiers[j])",
+            "len(out) < k_retrieval and len(otier) == len(out) and len(opos) == len(out)",
+            "forall(j, 0 <= j < len(out), 0 <= otier[j] and otier[j] < _t and hit_id(out[j]) in seen)",
+            SORTED_TIER % {"o": "out"},
+            DISTINCT % {"o": "out"},
+        ]},
+        1: {"inv": [                         # for d in shard_hits_by_tier: bucket.extend(...)
+            "len(bucket) >= 0",
+        ]},
+        2: {"inv": [                         # for h in bucket (sorted)
+            "len(out) < k_retrieval and len(otier) == len(out) and len(opos) == len(out)",
+            "len(out) >= len(pre_loop(out)) and forall(j, 0 <= j < len(pre_loop(out)), out[j] == pre_loop(out)[j] and otier[j] == pre_loop(otier)[j])",
+            "forall(j, len(pre_loop(out)) <= j < len(out), otier[j] == _t and 0 <= opos[j] and opos[j] < _i and out[j] == _iter[opos[j]])",
+            "forall2(a, b, len(pre_loop(out)) <= a and a < b and b < len(out), opos[a] < opos[b])",
+            "forall(j, 0 <= j < len(out), hit_id(out[j]) in seen)",
+            DISTINCT % {"o": "out"},
+        ]},
+    },
+    locals={"seen": "Set[str]", "out": "List[HitD]", "used_tiers": "List[str]", "bucket": "List[HitD]"},
+)
